@@ -143,6 +143,21 @@ def check_cube(denses, commons, E_shape, acc, case, layout=None):
             continue
         table = M.count_table(denses, shape, N)
         compare(r1, r2, table, acc, dict(case, mode=mode), "count")
+        if mode == "explicit" and layout is None and all(int(d.max()) + 1 < s for d, s in zip(denses, shape) if d.size):
+            # the SAME cube object asked again after each in-place change of its first dimension, and a new cube over the changed dimension
+            from .. import cubes as Q
+
+            for label, apply, nd in Q.in_place_changes(dims, [numpy.asarray(d) for d in denses]):
+                try:
+                    apply()
+                    t2 = M.count_table(nd, shape, N)
+                    compare(cube.count(), cube.count(return_missing_as=(0, False)), t2, acc, dict(case, mode=mode, after=label, cube="built before the change"), "count-after-change")
+                    fresh = ccube(dims, interacting_shape=shape)
+                    compare(fresh.count(), fresh.count(return_missing_as=(0, False)), t2, acc, dict(case, mode=mode, after=label, cube="built after the change"), "count-after-change")
+                except Exception as e:  # noqa
+                    acc.violation("count-after-change:raised", dict(case, mode=mode, after=label), repr(e))
+                    break
+                denses_now = nd
 
 
 def nontrivial(denses, commons):
